@@ -23,8 +23,8 @@ set_option linter.unusedVariables false
 namespace Pun.Props.C08
 open Pun Pun.Grid Pun.Dss
 
-/-- every grid level is a probability level in `(0,1]` -/
-def GridOK (g : List ℚ) : Prop := ∀ p ∈ g, 0 < p ∧ p ≤ 1
+/-- every grid level is a probability level in `(0,1]`, and the levels are listed in non-decreasing order -/
+def GridOK (g : List ℚ) : Prop := (∀ p ∈ g, 0 < p ∧ p ≤ 1) ∧ g.Pairwise (· ≤ ·)
 
 theorem mapOpt_spec (f : ℚ → Option ℚ) (Q : ℚ → ℚ → Prop) (g : List ℚ)
     (h : ∀ p ∈ g, ∃ v, f p = some v ∧ Q p v) :
@@ -50,7 +50,7 @@ theorem bound_spec (g s w : List ℚ) (hv : ValidW s w) (hg : GridOK g) :
     exact ⟨e, he⟩
   have h : ∀ p ∈ g, ∃ v, interpNext (extendEcdf e0) p = some v ∧ IsGenInv (massLE (s.zip w)) p v := by
     intro p hp
-    obtain ⟨e, v, he, hi, hgi⟩ := model_geninv s w hv p (hg p hp).1 (hg p hp).2
+    obtain ⟨e, v, he, hi, hgi⟩ := model_geninv s w hv p (hg.1 p hp).1 (hg.1 p hp).2
     rw [he0, Option.some.injEq] at he; subst he
     exact ⟨v, hi, hgi⟩
   obtain ⟨l, hl, hlen, hspec⟩ := mapOpt_spec _ _ g h
@@ -107,6 +107,96 @@ theorem bel_le_pl (lo hi w : List ℚ) (hlen : lo.length = hi.length) (hle : all
           simp only [h1, h2, if_true]; linarith
         · simp only [h1, if_false]; split <;> linarith
 
+theorem allLE_of_get (l r : List ℚ) (hlen : l.length = r.length)
+    (h : ∀ (i : Nat) (a b : ℚ), l[i]? = some a → r[i]? = some b → a ≤ b) : allLE l r = true := by
+  induction l generalizing r with
+  | nil => cases r <;> rfl
+  | cons x l ih =>
+    cases r with
+    | nil => simp at hlen
+    | cons y r =>
+      simp only [allLE, Bool.and_eq_true, decide_eq_true_eq]
+      exact ⟨h 0 x y (by simp) (by simp), ih r (by simpa using hlen)
+        (fun i a b ha hb => h (i + 1) a b (by simpa using ha) (by simpa using hb))⟩
+
+theorem sortedB_of_get (l : List ℚ)
+    (h : ∀ (i : Nat) (a b : ℚ), l[i]? = some a → l[i + 1]? = some b → a ≤ b) : sortedB l = true := by
+  induction l with
+  | nil => rfl
+  | cons x l ih =>
+    cases l with
+    | nil => rfl
+    | cons y r =>
+      simp only [sortedB, Bool.and_eq_true, decide_eq_true_eq]
+      exact ⟨h 0 x y (by simp) (by simp),
+        ih (fun i a b ha hb => h (i + 1) a b (by simpa using ha) (by simpa using hb))⟩
+
+theorem pairwise_of_sortedB (l : List ℚ) (h : sortedB l = true) : l.Pairwise (· ≤ ·) := by
+  induction l with
+  | nil => simp
+  | cons x l ih =>
+    cases l with
+    | nil => simp
+    | cons y r =>
+      simp only [sortedB, Bool.and_eq_true, decide_eq_true_eq] at h
+      have hp := ih h.2
+      rw [List.pairwise_cons] at hp ⊢
+      refine ⟨?_, ih h.2⟩
+      intro z hz
+      rcases List.mem_cons.mp hz with rfl | hz
+      · exact h.1
+      · exact le_trans h.1 (hp.1 z hz)
+
+theorem pairwise_get (l : List ℚ) (hs : l.Pairwise (· ≤ ·)) :
+    ∀ (i j : Nat) (a b : ℚ), i ≤ j → l[i]? = some a → l[j]? = some b → a ≤ b := by
+  induction l with
+  | nil => intro i j a b _ ha; simp at ha
+  | cons x r ih =>
+    rw [List.pairwise_cons] at hs
+    intro i j a b hij ha hb
+    cases i with
+    | zero =>
+      simp at ha; subst ha
+      cases j with
+      | zero => simp at hb; subst hb; exact le_refl _
+      | succ j => simp only [List.getElem?_cons_succ] at hb; exact hs.1 b (List.mem_of_getElem? hb)
+    | succ i =>
+      cases j with
+      | zero => omega
+      | succ j =>
+        simp only [List.getElem?_cons_succ] at ha hb
+        exact ih hs.2 i j a b (by omega) ha hb
+
+/-- the generalised inverse is monotone in the level -/
+theorem geninv_mono {F : ℚ → ℚ} {p p' a a' : ℚ} (hp : p ≤ p') (h : IsGenInv F p a) (h' : IsGenInv F p' a') : a ≤ a' := by
+  by_contra hc
+  have := h.2 a' (not_le.mp hc)
+  have := h'.1
+  linarith
+
+/-- a bound array that is the generalised inverse at every level of a sorted grid is non-decreasing -/
+theorem sortedB_of_geninv (g l : List ℚ) (F : ℚ → ℚ) (hgs : g.Pairwise (· ≤ ·)) (hlen : l.length = g.length)
+    (hspec : ∀ (i : Nat) (p : ℚ), g[i]? = some p → ∃ a, l[i]? = some a ∧ IsGenInv F p a) : sortedB l = true := by
+  apply sortedB_of_get
+  intro i a b ha hb
+  have hi : i + 1 < g.length := by rw [← hlen]; exact (List.getElem?_eq_some_iff.mp hb).1
+  have hi0 : i < g.length := by omega
+  obtain ⟨a1, ha1, h1⟩ := hspec i g[i] (by simp [hi0])
+  obtain ⟨b1, hb1, h2⟩ := hspec (i + 1) g[i + 1] (by simp [hi])
+  rw [ha] at ha1; rw [hb] at hb1
+  simp only [Option.some.injEq] at ha1 hb1; subst ha1; subst hb1
+  exact geninv_mono (pairwise_get g hgs i (i + 1) _ _ (by omega) (by simp [hi0]) (by simp [hi])) h1 h2
+
+theorem allLE_of_allGE (l r : List ℚ) (hlen : l.length = r.length) (h : allGE l r = true) : allLE r l = true := by
+  induction l generalizing r with
+  | nil => cases r <;> rfl
+  | cons x l ih =>
+    cases r with
+    | nil => simp at hlen
+    | cons y r =>
+      simp only [allGE, allLE, Bool.and_eq_true, decide_eq_true_eq] at h ⊢
+      exact ⟨h.1, ih r (by simpa using hlen) h.2⟩
+
 theorem geninv_le {F G : ℚ → ℚ} (hFG : ∀ t, G t ≤ F t) {x a b : ℚ}
     (ha : IsGenInv F x a) (hb : IsGenInv G x b) : a ≤ b := by
   by_contra hc
@@ -129,9 +219,25 @@ theorem stacking_geninv (g lo hi w : List ℚ) (hlen : lo.length = hi.length) (h
   obtain ⟨e2, r, he2, hr, hrlen, hrspec⟩ := bound_spec g hi w hv2 hg
   have hpos : ¬ lo.length < 1 := by
     have := List.length_pos_iff.mpr hv.ne; omega
+  have hsl : sortedB l = true := sortedB_of_geninv g l _ hg.2 hllen hlspec
+  have hsr : sortedB r = true := sortedB_of_geninv g r _ hg.2 hrlen hrspec
+  have hlr : allLE l r = true := by
+    apply allLE_of_get l r (hllen.trans hrlen.symm)
+    intro i a b ha hb
+    have hig : i < g.length := by rw [← hllen]; exact (List.getElem?_eq_some_iff.mp ha).1
+    obtain ⟨a1, ha1, h1⟩ := hlspec i g[i] (by simp [hig])
+    obtain ⟨b1, hb1, h2⟩ := hrspec i g[i] (by simp [hig])
+    rw [ha] at ha1; rw [hb] at hb1
+    simp only [Option.some.injEq] at ha1 hb1; subst ha1; subst hb1
+    exact geninv_le (bel_le_pl lo hi w hlen hle hv.nonneg) h1 h2
+  have hwf : wfB (switch l r) = true := by
+    unfold switch wfB
+    by_cases hsw : allGE l r = true
+    · simp only [hsw, if_true, hsl, hsr, allLE_of_allGE l r (hllen.trans hrlen.symm) hsw, Bool.and_self]
+    · simp only [hsw, Bool.false_eq_true, if_false, hsl, hsr, hlr, Bool.and_self]
   have hst : stacking g lo hi (some w) = .ok (switch l r) := by
     simp only [stacking, hlen, ne_eq, not_true_eq_false, if_false, hle, Bool.not_true, Bool.false_eq_true,
-      weightsOf, hv2.len.symm, he1, he2, hl, hr, hlen ▸ hpos]
+      weightsOf, hv2.len.symm, he1, he2, hl, hr, hlen ▸ hpos, hwf, if_true]
   refine ⟨switch l r, hst, ?_⟩
   have key : ∀ (i : Nat) (p : ℚ), g[i]? = some p → ∃ a b, l[i]? = some a ∧ r[i]? = some b ∧
       IsGenInv (massLE (lo.zip w)) p a ∧ IsGenInv (massLE (hi.zip w)) p b ∧ a ≤ b := by
@@ -157,7 +263,7 @@ theorem stacking_geninv (g lo hi w : List ℚ) (hlen : lo.length = hi.length) (h
 
 example : ValidW [1, 2] [1/2, 1/2] ∧ allLE [1, 2] [3, 4] = true ∧ GridOK [1/4, 3/4] :=
   ⟨⟨rfl, by simp, by intro x hx; simp at hx; subst hx; norm_num, by norm_num⟩, by decide +kernel,
-   by intro p hp; simp at hp; rcases hp with rfl | rfl <;> norm_num⟩
+   by intro p hp; simp at hp; rcases hp with rfl | rfl <;> norm_num, by norm_num⟩
 
 /-- two valid structures with the same plausibility and belief functions give the same p-box -/
 theorem stacking_eq_of_same_mass (g lo hi w lo' hi' w' : List ℚ)
@@ -469,8 +575,8 @@ theorem stepCheck_spec (n : Nat) (g : List ℚ) (k : Nat) (h : stepCheck n g k =
       have e : k + 1 + j = k + (j + 1) := by omega
       rw [e] at this; exact this
 
-theorem pValues_gridOK : GridOK Gen.pValues := by
-  unfold GridOK; decide +kernel
+theorem pValues_gridOK : GridOK Gen.pValues :=
+  ⟨by decide +kernel, pairwise_of_sortedB _ (by decide +kernel)⟩
 
 theorem pValues_gridStep : GridStep Gen.pValues Gen.steps := by
   refine ⟨by decide +kernel, ?_⟩
